@@ -1252,6 +1252,17 @@ theorem witness_legacy_path_servers :
     exclLegacyPathServers .legacy dPathSrv (reqRel "GET" "/v1/a") = true ∧
     exclLegacyPathServers .legacy dPathSrv (reqRel "GET" "/p/a") = true := by decide +kernel
 
+open W in
+/-- F-C09-11: `https://a.b.api.test/a` is under the declared server `https://{tenant}.api.test` (tenant = "a.b", no enum), the
+    property requires the route; both routers answer path-not-found (a host variable never takes a dotted value) -/
+theorem witness_srv_var_dot :
+    gorillaFind dDot rDot = .notFound ∧ legacyFind dDot rDot = .notFound ∧
+    specOutcome true dDot rDot = (.route, [⟨s "/a", [], true, .doc 0⟩]) ∧
+    exclSrvVarDot dDot rDot = true ∧
+    exclSrvVarDot dDot rDotOK = false ∧
+    gorillaFind dDot rDotOK = .route (s "/a") get [(s "tenant", s "acme")] (.doc 0) ∧
+    legacyFind dDot rDotOK = .route (s "/a") get [(s "tenant", s "acme")] (.doc 0) := by decide +kernel
+
 /-! ## non-vacuity: the hypotheses of the theorems are satisfiable on a non-trivial document -/
 
 open W in
